@@ -61,3 +61,11 @@ RC.append(("np.diff with n >= 2 along an axis shorter than n+1 (NumPy returns an
             ("C09", "diff", "rev", "wrong-shape", "n_gt_dim_minus_1:True")]))
 RC.append(("np.diff of a complex array whose result is empty: the VJP returns real zeros for a complex argument",
            [("C09", "diff", "rev", "wrong-shape", "arg_cplx:complex")]))
+RC.append(("np.kron beyond 2-D / np.linalg.norm(ord=inf): wrong first-order rules (see C01) also give a wrong Gauss-Newton Hessian",
+           [("C07", "kron", "*", "gauss-newton-hessian-wrong", "max_rank:~[3-9]"), ("C07", "norm", "*", "gauss-newton-hessian-wrong", "ord:inf"),
+            ("C07", "norm", "*", "gauss-newton-hessian-wrong", "axis_sign:tuple-neg")]))
+RC.append(("np.linalg.eigh: the rule skips its eigenvector term when the eigenvector cotangent is zero-VALUED (`if anp.any(vg)`), even when that cotangent is a traced quantity; "
+           "second derivatives of a function that depends on eigenvectors are wrong wherever its first-order eigenvector cotangent vanishes (zero-residual least squares: Hessian 0 instead of J^T J)",
+           [("C07", "eigh", "*", "gauss-newton-hessian-wrong", "observable:~(fun|proj)")]))
+RC.append(("np.linalg.solve with batched matrix and broadcasting vector right-hand side (see C01 entry): wrong Gauss-Newton Hessian",
+           [("C07", "solve", "*", "gauss-newton-hessian-wrong", "batch_broadcast:True,rhs_vector:True")]))
